@@ -12,7 +12,7 @@ void operator delete[](void *p, std::size_t) noexcept { operator delete(p); }
 int main(int argc, char **argv) {
     vf::opts o(argc, argv);
     vf::install_crash_handler();
-    RUN("storage_sequences", 1, false, scn::storage_sequences(o, R, o.cases));
+    RUN("storage_sequences", 1, true, scn::storage_sequences(o, R, o.cases));
     RUN("storage_mt", 2, true, scn::storage_mt<true>(o, R, T, o.cases));
     return 0;
 }
